@@ -200,7 +200,8 @@ def lean_obligations(pid, tier):
     obl = obligations_for(pid)
     theorems, module = obl["theorems"], obl["module"]
     exes = sorted({model_exe_name(m) for m in obl.get("modes", [])})
-    ok, log, wall = lean_build([module] + exes)
+    extra_modules = obl.get("extra_modules", [])     # e.g. YgmVerif.Pinned (decided witnesses about the pinned kernels)
+    ok, log, wall = lean_build([module] + extra_modules + exes)
     info = {"build_ok": ok, "build_wall_s": round(wall, 1), "theorems": theorems,
             "discharged": [], "failed": [], "source_audit": [], "leanchecker": None}
     if not ok:
@@ -209,6 +210,8 @@ def lean_obligations(pid, tier):
         info["build_errors"] = errs[:20]
         return info
     hits = lean_source_audit(module)
+    for em in extra_modules:
+        hits += lean_source_audit(em)
     info["modules_audited"] = [os.path.relpath(p, LEAN) for p in module_closure(module)]
     info["source_audit"] = hits
     ax = lean_axioms(theorems, module)
